@@ -1,16 +1,18 @@
 // C02 — block writes are validated as a whole and are all-or-nothing.
 #include "props/reg_glue.hpp"
 #include <set>
+#include <memory>
 using namespace rg;
 
 // a case = table + storage content + touched marks + one block write
-struct Case { TableD t; std::vector<std::vector<uint16_t>> content; std::vector<bool> touched; uint32_t addr; uint32_t n; std::vector<uint16_t> words; int pre = 0; };   // pre k > 0: before the write register_sanitise ran while the callback-backed areas' device stopped answering after k-1 reads
+struct Case { TableD t; std::vector<std::vector<uint16_t>> content; std::vector<bool> touched; uint32_t addr; uint32_t n; std::vector<uint16_t> words; int pre = 0; int view = 0; };   // view 1: a second table (another view over the same area array, with a few more registers) is initialised after this one   // pre k > 0: before the write register_sanitise ran while the callback-backed areas' device stopped answering after k-1 reads
 static Case g_cur;
 static std::string ser_case(const Case &c) {
     std::string s = rm::ser(c.t);
     for (size_t i = 0; i < c.content.size(); i++) { s += vp::fmt("content %zu", i); for (uint16_t w : c.content[i]) s += vp::fmt(" %u", w); s += "\n"; }
     s += "touched"; for (bool b : c.touched) s += b ? " 1" : " 0"; s += "\n";
     if (c.pre) s += vp::fmt("pre %d\n", c.pre);
+    if (c.view) s += vp::fmt("view %d\n", c.view);
     s += vp::fmt("bw %u %u", c.addr, c.n); for (uint16_t w : c.words) s += vp::fmt(" %u", w); s += "\n";
     return s;
 }
@@ -45,6 +47,11 @@ static std::string run_case(const Case &c, std::string &msg) {
     Live lv(c.t);
     RegisterInit in = lv.init();
     if (in.code != REG_INIT_SUCCESS) { msg = vp::fmt("valid table refused: code %d", (int)in.code); return "init:refused"; }
+    std::unique_ptr<View> other;
+    if (c.view) {
+        other.reset(new View(lv));
+        if (register_init(&other->t).code != REG_INIT_SUCCESS) other.reset();   // (a free word in an area this view cannot describe: nothing to share then)
+    }
     rm::Space m; m.init(c.t);
     m.mem = c.content; m.touched = c.touched;
     lv.copy_from(m);
@@ -150,7 +157,7 @@ static void run() {
     size_t ntables = (a.thorough() ? 40000 : 3000) / a.nshards;
     vp::stats().rule = vp::fmt("enum: %zu generated valid tables per shard; for each table every (address, length) in a window from 2 below the first area to 2 behind the last x 7 word patterns "
                                "(current content; one overlapped register driven to its bound -1/0/+1 through the words inside the window only; non-finite halves for float registers; all-ones; "
-                               "all-zero; random; the current content after one overlapped register was corrupted out of band), applied as a history (content evolves); a quarter of the writes on tables with a callback-backed area are repeated after a register_sanitise run that a device fault (read callback reports an I/O error from its k-th call on) cut short; oracle = overlay on the flat model + per-register decode/constraint + failure class with first address + "
+                               "all-zero; random; the current content after one overlapped register was corrupted out of band), applied as a history (content evolves); a quarter of the writes are repeated while a second table - another view over the same RegisterArea array with up to three more registers, initialised later - exists; a quarter of the writes on tables with a callback-backed area are repeated after a register_sanitise run that a device fault (read callback reports an I/O error from its k-th call on) cut short; oracle = overlay on the flat model + per-register decode/constraint + failure class with first address + "
                                "touched marks + exact-size caller buffer under ASan", ntables);
     if (a.shard == 0) top_area_phase();
     vp::Rng rng(a.seed * 8191 + a.shard);
@@ -223,6 +230,13 @@ static void run() {
                         if (!k2.empty()) vp::fail(k2, m2, ser_case(s2));
                         vp::cls("write-after-sanitise-cut-short-by-device-fault");
                     }
+                    if ((pat == 0 || pat == 1 || pat == 3) && rng.chance(1, 4)) {
+                        // side branch: the same write through this table while a second view over the same areas exists (initialised later)
+                        Case s3 = c; s3.view = 1;
+                        std::string m3, k3 = run_case(s3, m3);
+                        if (!k3.empty()) vp::fail(k3, m3, ser_case(s3));
+                        vp::cls("write-while-a-second-view-shares-the-areas");
+                    }
                     // evolve the history
                     Expect e = predict(t, m, addr, n, c.words.data());
                     if (e.ok) { for (uint32_t i = 0; i < n; i++) m.word(addr + i) = c.words[i]; for (size_t ri : e.overlapped) m.touched[ri] = true; vp::cls("write-accepted"); }
@@ -255,6 +269,7 @@ static bool replay(const std::string &text) {
         if (w.empty()) continue;
         if (w[0] == "content" && w.size() >= 2) { size_t i = strtoull(w[1].c_str(), 0, 10); if (i < c.content.size()) for (size_t k = 2; k < w.size(); k++) c.content[i].push_back((uint16_t)strtoul(w[k].c_str(), 0, 10)); }
         else if (w[0] == "pre" && w.size() >= 2) c.pre = atoi(w[1].c_str());
+        else if (w[0] == "view" && w.size() >= 2) c.view = atoi(w[1].c_str());
         else if (w[0] == "touched") for (size_t k = 1; k < w.size(); k++) c.touched.push_back(w[k] == "1");
         else if (w[0] == "bw" && w.size() >= 3) { c.addr = (uint32_t)strtoul(w[1].c_str(), 0, 10); c.n = (uint32_t)strtoul(w[2].c_str(), 0, 10); for (size_t k = 3; k < w.size(); k++) c.words.push_back((uint16_t)strtoul(w[k].c_str(), 0, 10)); }
     }
